@@ -1,0 +1,11 @@
+//go:build verif
+
+package codex
+
+import "github.com/creack/pty"
+
+// VerifExecInit encodes an execution request exactly as NewExecTube does
+// (verification harness only).
+func VerifExecInit(usePty bool, cmd, term string, size *pty.Winsize) []byte {
+	return newExecInitMsg(usePty, cmd, term, size).ToBytes()
+}
